@@ -233,9 +233,21 @@ def execute_case(sub: Sub, case, ctx: Ctx):
     return None
 
 
+def quiet_logs():
+    import logging
+    import warnings
+
+    warnings.filterwarnings("ignore")
+    for name in list(logging.root.manager.loggerDict) + ["rl4co", "lightning", "lightning.pytorch", "torchrl"]:
+        if name.startswith(("rl4co", "lightning", "pytorch_lightning", "torchrl")):
+            logging.getLogger(name).setLevel(logging.ERROR)
+    logging.getLogger().setLevel(logging.ERROR)
+
+
 def run_job(job):
     """Executed in a worker process. Returns a plain dict."""
     t0 = time.time()
+    quiet_logs()
     prop, subname, tier, seed, shard, nshards, n_examples, deadline, kind, extra = job
     res = {
         "sub": subname,
@@ -480,6 +492,7 @@ def run_check(prop, tier, seed, jobs_n=16, only=None, time_cap=None):
         import rl4co  # noqa
 
         torch.set_num_threads(1)
+        quiet_logs()
         if hasattr(mod, "preimport"):
             mod.preimport()
         with ProcessPoolExecutor(max_workers=jobs_n, mp_context=mp.get_context("fork")) as ex:
